@@ -58,8 +58,16 @@ func New(options ...VMOption) *VM {
 func (v *VM) btErr(r any) error {
 	bt := v.backtrace
 	var lines []string
-	i := v.frame.Codes[v.frame.N]
-	lines = append(lines, fmt.Sprintf("%v: %v: %v", i.Pos.String(v.globals), i.Code, r))
+	n := v.frame.N
+	if n >= len(v.frame.Codes) {
+		n = len(v.frame.Codes) - 1 // the frame ran off its end (e.g. a body that returns fewer values than declared)
+	}
+	if n >= 0 {
+		i := v.frame.Codes[n]
+		lines = append(lines, fmt.Sprintf("%v: %v: %v", i.Pos.String(v.globals), i.Code, r))
+	} else {
+		lines = append(lines, fmt.Sprintf("%v", r))
+	}
 	for n := len(bt) - 1; n >= 0; n-- {
 		pos := bt[n]
 		if pos == 0 {
